@@ -8,8 +8,8 @@ ALL = ["C%02d" % i for i in range(1, 21)]
 CLAIMED = {
     "C09": dict(
         level="other",
-        text="Partial, structural: 'status zero means complete, compilable output' for all grammars and spellings. Every insertion point of every template is walked with the Go lexical context it lands in and the class of text its producers can put there (producers found in the generator's SSA; constant printf formats expanded verb by verb); a context x class matrix decides whether the insertion can break the output's token structure (R09.1). The instantiated templates type-check in all variants (R09.2). On every normally-returning path of main the required generators run under exactly the stated conditions and call all their writers (R09.3). No error of template execution, formatting or file writing is dropped on a path to status zero (R09.4).",
-        note="NOT decided: termination of gocc for every input (worklist loops over unbounded grammars). Assumes -p is a valid import path and header/actions are valid Go (the property's premise). Trusted: text/template/parse, go/ssa, the context machine and class table in checker/splice.go.",
+        text="Partial, structural: 'status zero means complete, compilable output' for all grammars and spellings. Every insertion point of every template is walked with the Go lexical context it lands in and the class of text its producers can put there (producers found in the generator's SSA; constant printf formats expanded verb by verb); a context x class matrix decides whether the insertion can break the output's token structure (R09.1). The instantiated templates type-check in all variants (R09.2). On every normally-returning path of main the required generators run under exactly the stated conditions and call all their writers (R09.3). No error of template execution, formatting or file writing is dropped on a path to status zero (R09.4). Every $-reference of an action is rewritten (R09.5); nothing recovers a panic and no exit code is zero (R09.6); the package path the generated files import is the one of the output directory (R09.7). Termination of the generator: the epsilon-move worklist never processes an item twice (R09.8, found D25) and every loop and recursion reachable from main is a range loop, a counted loop with an invariant bound, a scanner loop that consumes a character per round and leaves at end of input, or is listed with its argument and shape-checked, the worklist arguments resting on the step rules of C01/C02 (R09.9).",
+        note="Termination: the finiteness of the universes the worklists draw from (items, item sets, FIRST sets) is argued in DESIGN, not checked; the front end's own LR Parse loop and library calls are assumed to return. Assumes -p is a valid import path and header/actions are valid Go (the property's premise). Trusted: text/template/parse, go/ssa, the context machine and class table in checker/splice.go.",
         technique="static analysis: lexical-context tracking over template parse trees x provenance classes from SSA; return-restricted post-dominance for output completeness; error-value flow",
         design="§4 C09, §3 E6"),
     "C10": dict(
